@@ -2,5 +2,6 @@
 Require Extraction.
 Require Import ExtrOcamlBasic.
 From WC Require Import Str WcParse WcSplit Expand Spec Norm Escape Glob.
+From WC.Proofs Require Import GlobLemmas.
 Extraction Language OCaml.
-Extraction "../driver/model.ml" wcparse linux wcsplit pattern_lists den pden unparse punparse norm_pattern escape is_magic glob_all.
+Extraction "../driver/model.ml" wcparse linux wcsplit pattern_lists den pden unparse punparse norm_pattern escape is_magic glob_all listed.
